@@ -229,15 +229,21 @@ theorem dataOp_sameIds (s : St) (n : Nat) (f : Str → Option Str) (hi : Inv s) 
     | exact SameIds.refl s
     | exact update_sameIds s n _ hi.1 (fun m a => cnt_withData _ m a)
 
-theorem sAN_core (s s1 : St) (hi : Inv s) (hs : SameIds s s1) (oldId : Option Nat) (a e : Nat) :
+theorem sAN_core (s s1 : St) (hi : Inv s) (hs : SameIds s s1) (oldId : Option Nat) (a e : Nat) (en : Node) :
     Grow s (match s1.detach a with
-      | (s2, some x) => (s2.update e (Node.mapAttrs (· ++ [x])), (match oldId with | some o => Res.node o | none => Res.none_))
+      | (s2, some x) =>
+        if tooDeep s2 en x then (s, Res.err Exc.hierarchy) else
+        (s2.update e (Node.mapAttrs (· ++ [x])), (match oldId with | some o => Res.node o | none => Res.none_))
       | (_, none) => (s, Res.err Exc.notFound)).1 := by
   cases hd2 : s1.detach a with
   | mk s2 x =>
     cases x with
     | none => exact Grow.refl s
-    | some n => exact (hs.noNew.trans (attach_core s1 s2 (hi.of_sameIds hs) a e n hd2)).grow
+    | some n =>
+      show Grow s (if tooDeep s2 en n then (s, Res.err Exc.hierarchy) else _).1
+      split
+      · exact Grow.refl s
+      · exact (hs.noNew.trans (attach_core s1 s2 (hi.of_sameIds hs) a e n hd2)).grow
 
 theorem step_grow (s : St) (op : Op) (hi : Inv s) : Grow s (step s op).1 := by
   cases op with
@@ -297,7 +303,7 @@ theorem step_grow (s : St) (op : Op) (hi : Inv s) : Grow s (step s op).1 := by
         · exact Grow.refl s
         · split
           · exact Grow.refl s
-          · exact sAN_core s _ hi (detachAll_sameIds (sameLocalIds en nm) s hi) _ a e
+          · exact sAN_core s _ hi (detachAll_sameIds (sameLocalIds en nm) s hi) _ a e en
       · exact Grow.refl s
     · exact Grow.refl s
   | setValue n v =>
